@@ -380,6 +380,13 @@ def users (sb : SetupBy) (n : Str) (v : Option Str) : List User :=
   let hits := sb.filter fun p => p.1.1 == n && (v.isNone || p.1.2 == v)
   sortStable userLe (hits.flatMap (·.2))
 
+/-- `app.printUses` (`eups uses [--optional] [--depth N] product [version]`): one row per user — user, its version,
+the version of the product it needs, whether that is optional; an optional user is shown only with `--optional`.
+`--depth N` is handed to `Eups.uses(…, depth, usesInfo=…)` and from there to `Uses.invert(depth)`, which does not look
+at it: the option changes nothing (modelled as it is). -/
+def printUses (us : List User) (showOptional : Bool) (_depth : Nat) : List (Str × Str × Option Str × Bool) :=
+  (us.filter fun u => showOptional || !u.optional).map fun u => (u.name, u.ver, u.need, u.optional)
+
 /-! ### the pinned tree (before the repairs D18 and D2): where sorting raised `TypeError`
 
 Not used by the driver: the model mirrors the tree with the repairs.  These definitions say where the
